@@ -224,7 +224,7 @@ def monitor(run):
             v.write_cfg(run.sc, cfg, MC_CFG % {"pol": pol, "n": 14 if thorough else 8})
             res = v.tlc(run.sc, "MCMonitor", cfg, timeout=1200, workers=4)
             run.design(res, "MCMonitor policy=%s (documented emitter => station tables = speaker tables)" % pol)
-    num = 10 if not thorough else 90
+    num = 20 if not thorough else 90
     steps = 14 if not thorough else 18
     for gi, g in enumerate(GROUPS):
         group = "mon-" + g
